@@ -206,6 +206,7 @@ class Scope:
         self.qual = qual
         self.self_class = self_class
         self.attr_alias: dict = {}  # (base atom, attr) -> Poly
+        self.store: dict = {}  # canonical text of attribute / subscript locations -> Poly (per-path evaluation)
 
 
 class NF:
@@ -505,6 +506,8 @@ class NF:
                         self._guard.pop()
         base = self.poly(e.value, sc, at, depth)
         ba = base.single_atom()
+        if sc.store and f"{base.canon()}.{e.attr}" in sc.store:
+            return sc.store[f"{base.canon()}.{e.attr}"]
         if ba is not None and (ba, e.attr) in sc.attr_alias:
             return sc.attr_alias[(ba, e.attr)]
         if self.field_order and e.attr in self.field_order and ba is not None and not ba.endswith(")") and "." not in ba.split("[")[0].replace("rl_blox", ""):
@@ -522,6 +525,10 @@ class NF:
             i = e.slice.value
             if -len(base.elems) <= i < len(base.elems):
                 return base.elems[i]
+        if sc.store:
+            idx0, _ = self._slice(e.slice, sc, at, depth)
+            if f"{base.canon()}[{idx0}]" in sc.store:
+                return sc.store[f"{base.canon()}[{idx0}]"]
         if isinstance(e.slice, ast.Constant) and isinstance(e.slice.value, int):
             return self._project(base, (e.slice.value,))
         idx, d = self._slice(e.slice, sc, at, depth)
